@@ -178,6 +178,47 @@ def rule_index_steps_cover_the_grammar(ctx):
                   expected="signed integers and * between the brackets", found=rx.pattern)
 
 
+def rule_literal_validators_anchored(ctx):
+    """Constants built by hand are validated with regular expressions and then printed between quotes.  `$` also matches BEFORE a
+    trailing newline: HexConstant('00ff\n') is accepted and printed as h'00ff<newline>', which the parser refuses.  Every
+    validating expression of stix2/patterns.py (the re.match sites and the hash table) ends at the absolute end (backslash-Z, or
+    fullmatch)."""
+    from .. import regexast
+    from ..tableeval import Evaluator, Regex
+    from .C02 import _match_sites
+    run = ctx.run
+    prog = ctx.prog
+    R = "C10.hex-literal-form"
+    ev = Evaluator(prog, allow_dyn=True)
+    pats = []
+    for pat, call, fi, m in _match_sites(prog, ["stix2.patterns"]):
+        if isinstance(pat, Regex):
+            pats.append((pat.pattern, call.lineno, fi.qualname if fi else "<module>", call.func.attr))
+        elif isinstance(pat, str):
+            pats.append((pat, call.lineno, fi.qualname if fi else "<module>", call.func.attr))
+    pm_ = prog.module("stix2.patterns")
+    b_ = pm_.scope.lookup_local("_HASH_REGEX")
+    if b_ is not None:
+        try:
+            tab = ev.eval(b_.value, pm_.scope)
+        except Exception:
+            tab = None
+        if isinstance(tab, dict):
+            for k_, v_ in sorted(tab.items()):
+                if isinstance(v_, (tuple, list)) and v_ and isinstance(v_[0], str):
+                    pats.append((v_[0], b_.lineno, "_HASH_REGEX[%s]" % k_, "match"))
+    if len(pats) < 10:
+        raise AnalysisError("fewer than 10 validating expressions found in stix2/patterns.py (%d)" % len(pats))
+    for p_, line, where, how in pats:
+        if how == "fullmatch":
+            continue
+        kinds = [regexast.end_kind(a_) for a_ in regexast.top_alternatives(p_, 0)]
+        run.check(all(k == "\\Z" for k in kinds), R, key(pm_.relpath, where, "validator-ends-at-the-absolute-end:%s" % p_[:30]),
+                  "a validating expression of the pattern constants is anchored with `$`, which also matches before a trailing "
+                  "newline: '<valid>\\n' is accepted and printed inside the literal, and the printed pattern does not parse",
+                  file=pm_.relpath, line=line, function=where, expected="\\Z", found=kinds)
+
+
 def rule_observation_brackets(ctx):
     """An observation prints its comparison expression in square brackets -- unless the operand is itself an observation
     expression (simple or compound: they bring their own brackets).  The class test that decides covers both kinds, or a
@@ -280,6 +321,7 @@ def run(ctx):
     ctx.do(rule_token_domain)
     ctx.do(rule_float_literal_form)
     ctx.do(rule_hex_literal_form)
+    ctx.do(rule_literal_validators_anchored)
     # timestamp literals are printed by the library's one timestamp writer
     from . import C15
     ctx.do(C15.rule_one_writer_one_reader, rule_id="C10.printer-complete")
